@@ -1,0 +1,10 @@
+//go:build !verif
+
+package internal
+
+import "time"
+
+// verifTimerHook is empty unless built with the verif tag.
+type verifTimerHook struct{}
+
+func (verifTimerHook) verifReset(time.Duration) bool { return false }
